@@ -84,6 +84,10 @@ def judge(ctx, line, script, ops, impl, sock):
                 if b[i] & 0x0F == 8:
                     ncl += 1
                 i += 2 + 4 + ln
+        if res.startswith("X:INTERNAL"):
+            ctx.violate("close-returns-within-timeout" if a[0] == "close" else "inert-after-close-or-loss", "call-raises-" + res[2:], inp,
+                        "the call returns or raises a documented exception", res, size=size)
+            break
         if res == "X:SPIN":
             ctx.violate("inert-after-close-or-loss", "end-of-stream-not-recognised-as-loss", inp,
                         "X:CLOSED at the end of the stream, transport released", "keeps reading the ended stream", size=size)
